@@ -94,6 +94,58 @@ func Plan(prop, tier string) []Mode {
 			ms = append(ms, withGo(conc("race", "race", 10000, 500, 6, 2, 4, 16), "go1.26.8"))
 		}
 		return ms
+	case "C09":
+		ms := []Mode{
+			tagged(Mode{Name: "tierb", Build: "plain", Cases: pick(40000, 2000000), Batch: pick(2500, 25000), Par: 16, WatchdogS: 60, HangIs: "violation"}),
+			conc("free", "plain", pick(600, 30000), pick(60, 600), 6, 1, 2, 4, 16),
+			conc("free", "race", pick(500, 25000), pick(50, 500), 8, 2, 4, 16, 8),
+		}
+		if !q {
+			ms = append(ms, withGo(conc("free", "race", 6000, 300, 6, 2, 4, 16), "go1.26.8"))
+		}
+		return ms
+	case "C17":
+		ms := []Mode{
+			conc("free", "plain", pick(1500, 80000), pick(150, 2000), 6, 1, 2, 4, 16),
+			conc("free", "race", pick(800, 40000), pick(100, 1000), 8, 2, 4, 16, 8),
+		}
+		if !q {
+			ms = append(ms, withGo(conc("free", "race", 8000, 500, 6, 2, 4, 16), "go1.26.8"))
+		}
+		return ms
+	case "C18":
+		ms := []Mode{
+			conc("reg", "plain", pick(3000, 150000), pick(250, 3000), 6, 1, 2, 4, 16),
+			conc("reg", "race", pick(300, 10000), pick(50, 500), 8, 2, 4, 16),
+			conc("race", "race", pick(800, 40000), pick(100, 1000), 8, 2, 4, 16, 8),
+			conc("pool", "plain", pick(1000, 50000), pick(100, 1000), 6, 2, 4, 16),
+			conc("pool", "race", pick(800, 40000), pick(100, 1000), 8, 2, 4, 16, 8),
+		}
+		if !q {
+			ms = append(ms, withGo(conc("pool", "race", 8000, 500, 6, 2, 4, 16), "go1.26.8"))
+			ms = append(ms, withGo(conc("race", "race", 8000, 500, 6, 2, 4, 16), "go1.26.8"))
+		}
+		return ms
+	case "C19":
+		ms := []Mode{
+			seq("queued", 48, 6),
+			conc("timed", "plain", pick(1500, 60000), pick(125, 1500), 12, 2, 4, 16, 1),
+			conc("timed", "race", pick(500, 20000), pick(50, 500), 10, 2, 4, 16),
+		}
+		if !q {
+			ms = append(ms, withGo(conc("timed", "race", 5000, 250, 10, 2, 4, 16), "go1.26.8"))
+		}
+		return ms
+	case "C10":
+		ms := []Mode{
+			conc("stable", "plain", pick(2400, 100000), pick(100, 1000), 12, 2, 4, 16, 1),
+			conc("stable", "race", pick(800, 30000), pick(50, 500), 10, 2, 4, 16),
+			conc("churn", "plain", pick(1000, 40000), pick(50, 500), 12, 2, 4, 16, 1),
+			conc("churn", "race", pick(400, 15000), pick(40, 400), 10, 2, 4, 16),
+			conc("churn-async", "plain", pick(64, 640), 4, 8, 4, 16),
+			conc("churn-withonly", "plain", pick(32, 320), 4, 8, 4, 16),
+		}
+		return ms
 	case "C02":
 		return []Mode{seq("seq", pick(600, 40000), pick(40, 500))}
 	}
